@@ -625,7 +625,30 @@ func ruleR09_45(c *Ctx) {
 			}
 			okSame, _ := allOrigins(r.Results[m.reqIdx], oIsValue(req))
 			c.obI("R09.5", r, "hit-returns-same-request", okSame, "a cache hit returns the very request it was given", "")
-			_ = hitVal
+			// … and the stored result itself (or its fields): what an earlier stage recorded in it is there for the next asker
+			if hitVal != nil && len(r.Results) > 0 && m.reqIdx != 0 {
+				isStored := func(o Origin) bool { // the value read from the context (provenance looks through the type assertion)
+					return o.V == hitVal || o.V == ssa.Value(rd)
+				}
+				fromHit := func(o Origin) bool {
+					if isStored(o) {
+						return true
+					}
+					if ad, isLd := derefLoad(o.V); isLd {
+						if fa, isFA := ad.(*ssa.FieldAddr); isFA {
+							okB, _ := allOrigins(fa.X, isStored)
+							return okB
+						}
+					}
+					if fl, isF := o.V.(*ssa.Field); isF {
+						okB, _ := allOrigins(fl.X, isStored)
+						return okB
+					}
+					return false
+				}
+				okHit, bad := allOrigins(r.Results[0], fromHit)
+				c.obI("R09.5", r, "hit-returns-stored-result", okHit, "on a cache hit the accessor hands out the stored result itself (a copy made per asker loses what a stage recorded in it: the admitting alternative, the selected consumer)", "origin "+describeOrigin(bad))
+			}
 		}
 		// what is written is what was computed
 		if len(comps) == 1 {
@@ -641,6 +664,27 @@ func ruleR09_45(c *Ctx) {
 				}
 			}
 			c.obI("R09.5", wr, "stores-computed-value", ok, "the value memoised is the one just computed", "stored value "+describe(val))
+		}
+	}
+	// the raw Content-Type parser is asked by the memoising accessor (and by the generated-server gate, which has no
+	// request to thread the memo through) only: a stage parsing the header on its own neither uses nor leaves the memo
+	for _, fn := range p.LibFuncs("rt/middleware") {
+		for _, ci := range callsIn(fn, "rt.ContentType") {
+			if ci.Parent() != fn {
+				continue
+			}
+			n := fnName(fn)
+			okC := n == "(*rt/middleware.Context).ContentType" || n == "(*rt/middleware.Context).BindValidRequest" ||
+				n == "(*rt/middleware.untypedParamBinder).Bind" // (formData binding asks whether the body is multipart)
+			if !okC && isTransparent(fn) {
+				okC = true
+				for _, rt := range rootsOf(fn) {
+					if rn := fnName(rt); rn != "(*rt/middleware.Context).ContentType" && rn != "(*rt/middleware.Context).BindValidRequest" && rn != "(*rt/middleware.untypedParamBinder).Bind" {
+						okC = false
+					}
+				}
+			}
+			c.obI("R09.5", ci, "content-type-parsed-by-the-memoising-accessor", okC, "within the middleware, runtime.ContentType is called by Context.ContentType (memoising), by BindValidRequest and by the formData binder only", "runtime.ContentType is called by "+n+": the parsed content type is recomputed outside the memo")
 		}
 	}
 	// external readers
